@@ -23,6 +23,11 @@ TOP_ASM = ["crypto_stream/salsa20/xmm6/salsa20_xmm6-asm.S",
 
 VARIANT_DROP = {
     "native": [],
+    # native defines plus the per-convenience-library machine flags of src/libsodium/Makefile.am (libaesni: -mavx -maes -mpclmul, libavx2:
+    # -mavx2, ...), read from the current tree: the encodings (VEX or legacy) of the SIMD translation units are then those of the real build
+    "mflags": [],
+    # native defines plus -DNDEBUG (VARIANT_ADD): assert() compiles to nothing, as in any release build of an application that embeds the sources
+    "ndebug": [],
     # noasm also allocates its work areas with posix_memalign instead of mmap (no HAVE_MMAP): page-granular mappings hide an overrun of a
     # few bytes from every sanitizer, a heap block does not (scrypt region, guarded allocations)
     "noasm": ["HAVE_AMD64_ASM", "HAVE_INLINE_ASM", "HAVE_MMAP"],
@@ -36,6 +41,8 @@ VARIANT_DROP = {
                "HAVE_WMMINTRIN_H", "HAVE_RDRAND",
                "HAVE_EXPLICIT_BZERO", "HAVE_WEAK_SYMBOLS", "HAVE_MEMSET_S", "HAVE_EXPLICIT_MEMSET"],
 }
+
+VARIANT_ADD = {"ndebug": ["-DNDEBUG=1"]}
 
 SAN = ["-fsanitize=address,undefined", "-fno-sanitize=alignment",
        "-fno-sanitize-recover=undefined", "-fsanitize-recover=pointer-overflow,nonnull-attribute",
@@ -98,7 +105,7 @@ def defs_for(variant):
         if name in drop:
             continue
         out.append(d)
-    return out
+    return out + VARIANT_ADD.get(variant, [])
 
 
 def parse_dep(path):
@@ -179,6 +186,34 @@ def gen_version_h(incdir):
         open(dst, "w").write(txt)
 
 
+MFLAG_DEFAULTS = {"CFLAGS_SSE2": "-msse2", "CFLAGS_SSE3": "-msse3", "CFLAGS_SSSE3": "-mssse3", "CFLAGS_SSE41": "-msse4.1", "CFLAGS_AVX": "-mavx",
+                  "CFLAGS_AVX2": "-mavx2", "CFLAGS_AVX512F": "-mavx512f", "CFLAGS_AESNI": "-maes", "CFLAGS_PCLMUL": "-mpclmul", "CFLAGS_RDRAND": "-mrdrnd",
+                  "CFLAGS_ARMCRYPTO": ""}
+
+
+def makefile_flags():
+    """{source path relative to src/libsodium: [machine flags]} from Makefile.am's lib*_la_CPPFLAGS / lib*_la_SOURCES (current tree)."""
+    import re
+    try:
+        txt = open(os.path.join(SRC, "Makefile.am")).read().replace("\\\n", " ")
+    except OSError:
+        return {}
+    flags, out = {}, {}
+    for m in re.finditer(r"^(lib\w+)_la_CPPFLAGS\s*=(.*)$", txt, re.M):
+        fl = []
+        for tok in re.findall(r"@(CFLAGS_\w+)@", m.group(2)):
+            fl += MFLAG_DEFAULTS.get(tok, "").split()
+        flags[m.group(1)] = fl
+    for m in re.finditer(r"^(lib\w+)_la_SOURCES\s*\+?=(.*)$", txt, re.M):
+        fl = flags.get(m.group(1))
+        if not fl:
+            continue
+        for s in m.group(2).split():
+            if s.endswith(".c"):
+                out[s] = sorted(set(out.get(s, []) + fl), key=lambda x: list(MFLAG_DEFAULTS.values()).index(x) if x in MFLAG_DEFAULTS.values() else 99)
+    return out
+
+
 def include_flags(bdir):
     inc = os.path.join(SRC, "include")
     return ["-I" + inc, "-I" + os.path.join(inc, "sodium"),
@@ -195,14 +230,17 @@ def build_lib(flavour, variant, quiet=True):
         hc = HashCache()
         cmd = [cc] + BASE_CFLAGS + cflags + defs_for(variant) + include_flags(bdir)
         srcs = lib_sources()
+        mfl = makefile_flags() if variant == "mflags" else {}
         jobs = []
+        percmd = {}
         for s in srcs:
             rel = os.path.relpath(s, SRC)
             obj = os.path.join(bdir, "obj", rel.replace("/", "__") + ".o")
             jobs.append((s, obj))
+            percmd[s] = cmd + mfl.get(rel, [])
         t0 = time.time()
         with ThreadPoolExecutor(JOBS) as ex:
-            res = list(ex.map(lambda so: compile_one(cmd, so[0], so[1], hc), jobs))
+            res = list(ex.map(lambda so: compile_one(percmd[so[0]], so[0], so[1], hc), jobs))
         errs = [e for _, _, e in res if e]
         if errs:
             raise RuntimeError("libsodium build failed (%s/%s):\n%s" % (flavour, variant, errs[0]))
